@@ -404,9 +404,19 @@ def check_normalize(rep, repo):
            f"returns '{show(rets[0].value)[:160] if rets else '?'}'")
 
 
+def check_measures_inplace(rep, repo):
+    """A measure is a function of its arguments: nothing it (or a helper it calls) does may rearrange an argument or the
+    array it returns - e.g. a diagnostic that sorts "a copy" obtained with np.asarray."""
+    from ..rules_premise import check_function_inplace
+    for name in ("opf_accuracy", "opf_accuracy_per_label", "confusion_matrix", "purity", "normalize"):
+        fi = repo.need_function(GEN, name)
+        check_function_inplace(rep, Walker(repo, fi, inline=inline_same_module_private(fi)), "MEASURE-inplace", name)
+
+
 def check(chk, repo):
     chk.explanation = EXPLANATION
     rep = Rep(chk, repo)
+    check_measures_inplace(rep, repo)
     check_accuracy(rep, repo)
     check_confusion(rep, repo)
     check_per_label(rep, repo)
